@@ -125,4 +125,16 @@ class CoherentArtifactAllSizes(Contract):
     def static_obligations(self, tier):
         ob = polynomial_lemma()
         out = [{"name": ob.name, "ok": ob.status == "proved", "undecided": ob.status == "unknown", "function": self.target, "backend": ob.backend, "strength": "U", "detail": "exact real arithmetic, all c, w, x"}]
-        return out + records(on_index_spec(), self.name, prefix="on_index.") + records(all_indices_spec(), self.name, prefix="all_indices.")
+        import numpy as np
+
+        from contracts.unbounded import crosscheck
+
+        def a1(rng, k):
+            nt, order = rng.integers(0, 4), int(rng.integers(1, 4))
+            return {"matrix": np.zeros((nt, order)), "center": rng.uniform(-1, 1), "width": rng.uniform(0.2, 1), "axis": rng.uniform(-2, 2, nt), "order": order}
+
+        def a2(rng, k):
+            ng, nt, order = rng.integers(0, 3), rng.integers(0, 4), int(rng.integers(1, 4))
+            return {"matrix": np.zeros((ng, nt, order)), "centers": rng.uniform(-1, 1, ng), "widths": rng.uniform(0.2, 1, ng), "global_axis_size": int(ng), "model_axis": rng.uniform(-2, 2, nt), "order": order}
+
+        return out + records(on_index_spec(), self.name, prefix="on_index.") + records(all_indices_spec(), self.name, prefix="all_indices.") + crosscheck(on_index_spec(), a1) + crosscheck(all_indices_spec(), a2)
